@@ -108,7 +108,8 @@ def run_impl(case):
     try:
         if case["prior"] is not None:
             with open(path, "w", newline="") as f:
-                f.write("".join(l + "\n" for l in case["prior"]))
+                text = "".join(l + "\n" for l in case["prior"])
+                f.write(text[:-1] if case.get("prior_nonl") else text)      # ... or an older file whose last line is not terminated
         calls = []
         shared = JetAnalysis() if case.get("reuse") else None       # one analysis object used for every call
         outer = [] if case.get("samelist") else None                # ... and one outer list object, refilled in place per call
@@ -117,21 +118,41 @@ def run_impl(case):
             err = None
             if outer is not None:
                 outer[:] = mk_events(call["events"])
-            evs = (lambda c: outer if outer is not None else mk_events(c["events"]))
+            def evs(c):
+                if outer is not None:
+                    l = outer
+                else:
+                    l = mk_events(c["events"])
+                for i, j in c.get("same_event", []):          # one event (the same list object, the same Particle objects) listed twice
+                    if i < len(l) and j < len(l) and c["events"][i] == c["events"][j]:
+                        l[j] = l[i]
+                return l
+            num = {"int": lambda v: int(v) if (v is not None and float(v) == int(v)) else v,
+                   "np": lambda v: None if v is None else np.float64(v)}.get(call.get("num_as"), lambda v: v)
+            R, eta, pt = num(call["R"]), tuple(num(v) for v in call["eta"]), tuple(num(v) for v in call["pt"])
             try:
                 with contextlib.redirect_stdout(io.StringIO()):
                     if call.get("defaults"):
                         # keyword parameters left to their documented defaults (charged only, anti-kt): the case
                         # carries charged=True / alg="antikt", which is what the oracle and the model are given
-                        ja.perform_jet_finding(evs(call), call["R"], tuple(call["eta"]), tuple(call["pt"]), path)
+                        ja.perform_jet_finding(evs(call), R, eta, pt, path)
                     else:
-                        ja.perform_jet_finding(evs(call), call["R"], tuple(call["eta"]), tuple(call["pt"]),
+                        ja.perform_jet_finding(evs(call), R, eta, pt,
                                                path, assoc_only_charged=call["charged"], jet_algorithm=fj_alg(call["alg"]))
             except Exception as e:
                 err = type(e).__name__
             calls.append({"err": err, "file": read_lines(path)})
         ja = shared or JetAnalysis()
         try:
+            if case.get("readtwice"):
+                # the reading object has read something before (another, longer file, then this file once): read_jet_data
+                # returns what the file holds now, not what the object held
+                other = os.path.join(d, "older.csv")
+                with open(other, "w", newline="") as f:
+                    f.write("".join(l + "\n" for l in OLDROWS))
+                ja.read_jet_data(other)
+                if os.path.exists(path):
+                    ja.read_jet_data(path)
             ja.read_jet_data(path)
             rd = {"err": None, "data": ja.jet_data_, "jets": ja.get_jets(), "assoc": ja.get_associated_particles()}
         except Exception as e:
@@ -490,6 +511,20 @@ def gen_case(rng, small=False):
         for c in calls:
             c["events"] = [ev[:6] for ev in c["events"][:3]]
     case = {"prior": prior, "calls": calls}
+    for c in calls:
+        y = rng.random()
+        if y < 0.15:
+            c["num_as"] = "np"                   # R and the limits as numpy.float64
+        elif y < 0.3:
+            c["num_as"] = "int"                  # integral R / limits as Python ints
+        if len(c["events"]) >= 2 and c["events"][0] and rng.random() < 0.12 and not small:
+            j = rng.randrange(1, len(c["events"]))
+            c["events"][j] = [list(p) for p in c["events"][0]]
+            c["same_event"] = [[0, j]]
+    if prior and rng.random() < 0.2:
+        case["prior_nonl"] = True
+    if rng.random() < 0.2:
+        case["readtwice"] = True
     if reuse:
         case["reuse"] = True
         if rng.random() < 0.5:
@@ -873,12 +908,15 @@ def _smaller(c):
     calls = c["calls"]
     if len(calls) > 1:
         for i in range(len(calls)):
-            yield {"prior": c["prior"], "calls": calls[:i] + calls[i + 1:]}
+            yield {**c, "calls": calls[:i] + calls[i + 1:]}
+    for flag in ("readtwice", "prior_nonl", "samelist", "reuse"):       # the history flags, one at a time
+        if c.get(flag):
+            yield {k: v for k, v in c.items() if k != flag}
     if c["prior"]:
         for i in range(len(c["prior"])):
-            yield {"prior": c["prior"][:i] + c["prior"][i + 1:], "calls": calls}
+            yield {**c, "prior": c["prior"][:i] + c["prior"][i + 1:]}
     def with_call(i, call):
-        return {"prior": c["prior"], "calls": calls[:i] + [call] + calls[i + 1:]}
+        return {**c, "calls": calls[:i] + [call] + calls[i + 1:]}
     for i, call in enumerate(calls):
         evs = call["events"]
         for k in range(len(evs)):
@@ -888,6 +926,9 @@ def _smaller(c):
             for j in range(len(ev)):
                 yield with_call(i, {**call, "events": evs[:k] + [ev[:j] + ev[j + 1:]] + evs[k + 1:]})
         base = {k: v for k, v in call.items() if k != "boundary"}
+        for flag in ("num_as", "same_event"):
+            if call.get(flag):
+                yield with_call(i, {k: v for k, v in base.items() if k != flag})
         if call.get("defaults"):
             yield with_call(i, {k: v for k, v in base.items() if k != "defaults"})
         if call["eta"] != [None, None]:
